@@ -414,6 +414,9 @@ class XPathToken(Token[ta.XPathTokenType]):
                 return cls(value)
             elif isinstance(value, UntypedAtomic):
                 try:
+                    if hasattr(cls, 'fromstring'):
+                        # Date/time and duration types are built from fields, not from text
+                        return cls.fromstring(value.value)
                     return cls(value)
                 except (TypeError, ValueError):
                     pass
